@@ -4,5 +4,6 @@ CONSTANTS
   MaxFlush = 2
   MaxRot = 2
   Dedup = FALSE
+  Recheck = TRUE
 INVARIANTS NoDup NoLoss NoInvent NeverInNeither TypeOK
 CHECK_DEADLOCK FALSE
